@@ -451,6 +451,7 @@ func (g *fgen) run() {
 			panic(transErr(err.Error()))
 		}
 		g.fact("true", t)
+		g.noteQuantAssumed(env, c, "true")
 	}
 	if fc.hasMod {
 		g.precise = g.preciseLocs(fc, g.clauseEnv(g.entry, nil, nil))
@@ -663,7 +664,7 @@ func (g *fgen) block(b *ssa.BasicBlock) {
 		for _, phi := range phis {
 			v := g.defineUnknown(phi, st)
 			li.phiVals[phi] = v.t
-			if phi.Comment == "rangeindex" && len(phi.Edges) == 2 {
+			if phi.Comment == "rangeindex" && len(phi.Edges) >= 2 {
 				// hidden index of a `range` loop: starts at -1, stepped by +1 while < len
 				if c, ok := phi.Edges[0].(*ssa.Const); ok && c.Value != nil && c.Value.ExactString() == "-1" {
 					// ... and every completed iteration passed `index+1 < limit <= MaxInt`
@@ -680,6 +681,7 @@ func (g *fgen) block(b *ssa.BasicBlock) {
 					panic(transErr(err.Error()))
 				}
 				g.fact(g.curGuard, t)
+				g.noteQuantAssumed(env, c, g.curGuard)
 			}
 			if li.spec.decreases != nil {
 				v, err := env.safeTr(*li.spec.decreases)
@@ -1205,6 +1207,7 @@ func (g *fgen) indexAddr(x *ssa.IndexAddr) {
 		s := g.get(x.X)
 		g.oblige("idx", g.siteLabel(x.Pos(), "index"), fmt.Sprintf("(and (<= 0 %s) (< %s (s_len %s)))", i.t, i.t, s.t), x.Pos())
 		g.locs[x] = g.elemLoc(s, i.t)
+		g.instantiateAt(i.t)
 	case *types.Pointer:
 		a := u.Elem().Underlying().(*types.Array)
 		g.oblige("idx", g.siteLabel(x.Pos(), "index"), fmt.Sprintf("(and (<= 0 %s) (< %s %d))", i.t, i.t, a.Len()), x.Pos())
